@@ -19,6 +19,7 @@ def run(args, stdin=None, cwd=None, timeout=60, env=None):
     """-> (exit code, stdout, stderr); exit -9 on timeout"""
     e = dict(os.environ)
     e["NO_COLOR"] = "1"
+    e["RUST_BACKTRACE"] = "0"
     if env:
         e.update(env)
     try:
